@@ -46,6 +46,10 @@ def run(tier, replay=None):
     R.deep_runs(run, "c06", [R.inst("deep_l3", trig="size", count=2, limit=3, sizes=(1, 2, 4), pre="PreB", maxrec=deep, restart=8, encfail=6, faults=3),
                         R.inst("deep_l0_t", trig="size", append=False, count=1, limit=0, sizes=(0, 1), pre="PreB", maxrec=deep, restart=8),
                         R.inst("deep_l3_buf", trig="size", count=2, limit=3, sizes=(1, 3), pre="PreNone", maxrec=deep, restart=4, encfail=8, buf=2)], 40 if tier == "quick" else 400)
+    # several threads through one appender: the size shown and the decision belong to the append that wrote the record
+    # (recorded traces validated against Rolling.tla)
+    R.concurrent_traces(run, "c06", "size", 2, 60 if tier == "quick" else 1500, long=40 if tier == "quick" else 300)
+    R.concurrent_traces(run, "c06", "size", 0, 40 if tier == "quick" else 800)
     if not run.mismatches and run.nontrivial < 50:
         raise C.ToolError("vacuous run")
     run.exhaustive = True
